@@ -554,8 +554,8 @@ theorem updChildM_eq (n : Node) (k : String) (f : Option Node → Node × Option
   cases hv : isVar k <;> simp [kids, setKids, updKidM_eq]
 
 /-- **A failing `add` leaves nothing visible behind** (also `errDupSlash`, which may leave item-less nodes in the real
-tree): the tree after the failing call is well-formed and stores, key for key, what it stored before — so every
-theorem stated through `WF` and `lookupW` (`tree_search_raw`, `tree_search_raw_admissible`, `tree_add_accepts`, …)
+tree): the tree after the failing call is well-formed and stores, key for key, what it stored before — so every theorem
+that is stated through `WF` and `lookupW` (`tree_search_raw`, `tree_search_raw_admissible`, `tree_add_accepts`, …)
 speaks about the REAL tree after any history of successful and failing raw `Add` calls. -/
 theorem addM_error_invisible (toks : List String) : ∀ (n : Node) (h : H) (e : AddErr), WF n →
     (addM toks n h).2 = some e →
@@ -641,5 +641,33 @@ theorem treeAddM_spec (root : Node) (hwf : WF root) (route : String) (item : Opt
 example : (treeAddM (newNode none) "/a//b" (some 1)).2 = some .dupSlash ∧
     (treeAddM (newNode none) "/a//b" (some 1)).1.lits.length = 1 ∧
     treeSearch (treeAddM (newNode none) "/a//b" (some 1)).1 "/a" = none := by decide +kernel
+
+/-! ### nested loops and mutation together -/
+
+theorem bindAllM_append (a b : List Reg) : ∀ (r : Router),
+    bindAllM r (a ++ b) = match (bindAllM r a).2 with
+      | none => bindAllM (bindAllM r a).1 b
+      | some e => ((bindAllM r a).1, some e) := by
+  induction a with
+  | nil => intro r; rfl
+  | cons x a ih =>
+    intro r
+    obtain ⟨m, p, item⟩ := x
+    simp only [List.cons_append, bindAllM]
+    cases h : (handleM r m p item).2 with
+    | none => simp only [ih]
+    | some e => rfl
+
+/-- the executable model the driver runs for `bind` / `start` lines — nested loops, in-place `Handle` — is the flat
+mutation-visible one, which serves every request as the `Except` model does (`bindAllM_same_trees`). -/
+theorem bindGroupsM_flat (gs : List (List Reg)) : ∀ (r : Router), bindGroupsM r gs = bindAllM r gs.flatten := by
+  induction gs with
+  | nil => intro r; rfl
+  | cons g gs ih =>
+    intro r
+    simp only [bindGroupsM, List.flatten_cons, bindAllM_append]
+    cases h : (bindAllM r g).2 with
+    | none => simp only [ih]
+    | some e => rfl
 
 end GoZero.C09
